@@ -228,6 +228,18 @@ def evaluate(ctx, cases):
                 cache[id(c)] = ({"err": "cyclic"}, {"err": "cyclic"})
                 continue
             cache[id(c)] = (impl, o)
+            if "ok" in o and ctx.rng.random() < 0.35:
+                # the same patch object applied to a fresh copy of the document once more: the document RFC 6902 defines, again
+                try:
+                    pobj = JSONPatch(copy.deepcopy(c["ops"]))
+                    first = core.canon(pobj.apply(copy.deepcopy(c["doc"])))
+                    second = core.canon(pobj.apply(copy.deepcopy(c["doc"])))
+                    if first != impl["ok"] or second != impl["ok"]:
+                        ctx.violation("applying the same patch object again to an equal document must give the same document", c, {"first": first, "second": second}, impl)
+                except core.Cyclic:
+                    ctx.violation("the result of a patch must be a JSON value (cyclic on re-application)", c, "cyclic structure", "a tree")
+                except Exception as e:  # noqa: BLE001
+                    ctx.violation("applying the same patch object again raised", c, core.exc_name(e), impl)
             ctx.case(repr(c), isinstance(c["doc"], (dict, list)), sample=c)
             ctx.count("ops:" + ("single:" + c["ops"][0]["op"] if len(c["ops"]) == 1 else "sequence"))
             ctx.count("outcome:" + ("ok" if "ok" in o else o["err"]))
